@@ -1,7 +1,7 @@
 # C01 — layer merge follows the documented rules (merge.go, match.go, util.go via MergeDocument).
-from .. import core, dgen, hist, histprop
+from .. import filepass, core, dgen, hist, histprop
 
-CLI = ()
+CLI = ("bkl",)
 HARNESS = True
 ASSUMPTIONS = [
     "theorems are about Model.Merge.merge/vmatch; the tie to merge.go/match.go/util.go is this run's differential comparison through Parser.MergeDocument/Documents/OutputDocuments",
@@ -47,7 +47,15 @@ def dist_fn(dist, c, a, b):
 
 def run(ctx):
     n = 1500 if ctx.tier == "quick" else 30000
-    return histprop.run_history_property(ctx, "C01", gen_case, n, RULE, nontrivial, dist_fn=dist_fn)
+    stats = histprop.run_history_property(ctx, "C01", gen_case, n, RULE, nontrivial, dist_fn=dist_fn)
+    rng = core.Rng(ctx.seed + 1)
+    nf = 250 if ctx.tier == "quick" else 5000
+    chains = [[[l] for l in dgen.chain(rng.fork("fc%d" % i))] for i in range(nf)]
+    done = filepass.run_layers_through_files(ctx, chains, rng, "C01", "c01-disagreement")
+    stats["distribution"]["chains_through_layer_files"] = done
+    stats["evaluations"] += done
+    stats["disagreements_checked"] = len(ctx.violations)
+    return stats
 
 
 def replay(ctx, payload):
